@@ -78,6 +78,10 @@ class Pairing:
                 return "hr %s" % ftxt(f[1])
             if f[0] == "retype":
                 return "retype %s" % ftxt(f[1])
+            if f[0] == "hideat":
+                return "hideat %d %s" % (f[1], ftxt(f[2]))
+            if f[0] == "bindat":
+                return "bindat %d %s %s" % (f[1], f[2], ftxt(f[3]))
             return "hide %s" % ftxt(f[1])
         return "q %d %s %s | %s" % (len(self.sig), " ".join(self.sig), self.r, ftxt(self.functor))
 
@@ -118,6 +122,12 @@ class Pairing:
                 return "sigc::hide_return(%s)" % fexpr(f[1])
             if f[0] == "retype":
                 return "sigc::retype(%s)" % fexpr(f[1])
+            if f[0] == "hideat":
+                return "sigc::hide<%d>(%s)" % (f[1], fexpr(f[2]))
+            if f[0] == "bindat":
+                v = f[2]
+                val = {"i": "1", "l": "1L", "d": "1.5", "b": "true", "B": "B()", "D": "D()", "U": "U()", "p": "(B*)nullptr", "q": "(D*)nullptr"}[v]
+                return "sigc::bind<%d>(%s, %s)" % (f[1], fexpr(f[3]), val)
             return "sigc::hide(%s)" % fexpr(f[1])
         e = fexpr(self.functor)
         sig = "%s(%s)" % (cpp_rtype(self.r), ", ".join(map(cpp_ptype, self.sig)))
@@ -359,6 +369,10 @@ def directed_pairings():
             out.append(Pairing(["%s.%s" % (b, a), "i.v"], "i", ("hide", fun)))
             out.append(Pairing(["%s.%s" % (b, a)], "-", ("bind", "i", ("hr", ("fun", "obj", ["%s.l" % b, "i.v"], "i")))))
             out.append(Pairing(["%s.%s" % (b, a)], "i", ("mem", 0, 0, ["%s.l" % b], "i")))
+            out.append(Pairing(["%s.%s" % (b, a), "i.v"], "i", ("hideat", 1, fun)))
+            out.append(Pairing(["i.v", "%s.%s" % (b, a)], "i", ("hideat", 0, fun)))
+            out.append(Pairing(["%s.%s" % (b, a)], "i", ("bindat", 1, "i", ("fun", "obj", ["%s.l" % b, "i.v"], "i"))))
+            out.append(Pairing(["%s.%s" % (b, a)], "i", ("bindat", 0, "i", ("fun", "obj", ["i.v", "%s.l" % b], "i"))))
             out.append(Pairing(["%s.%s" % (b, a)], "i", ("retype", ("fun", "ptr", ["%s.l" % b], "i"))))
             out.append(Pairing(["%s.%s" % (b, a)], "i", ("retype", ("fun", "ptr", ["%s.r" % b], "i"))))
     for a in ("v", "c", "l"):
@@ -367,6 +381,14 @@ def directed_pairings():
         out.append(Pairing(["p.%s" % a], "-", ("retype", ("fun", "ptr", ["q.v"], "-"))))
         out.append(Pairing(["U.%s" % a], "-", ("retype", ("fun", "ptr", ["B.c"], "-"))))
         out.append(Pairing(["d.%s" % a], "-", ("retype", ("mem", 0, 0, ["i.v"], "-"))))
+    # positional hide<I> / bind<I>: every position from 0 to one past the legal range, for arities 1..3
+    for n in (1, 2, 3):
+        sig = ["i.v"] * n
+        for i in range(0, n + 2):
+            out.append(Pairing(sig, "-", ("hideat", i, ("fun", "obj", ["i.v"] * (n - 1), "-"))))
+            out.append(Pairing(sig, "-", ("bindat", i, "i", ("fun", "obj", ["i.v"] * (n + 1), "-"))))
+        out.append(Pairing(sig, "-", ("hideat", 0, ("hideat", 0, ("fun", "obj", ["i.v"] * max(0, n - 2), "-")))))
+        out.append(Pairing(["D.l"] + sig[1:], "i", ("bindat", 1, "d", ("fun", "ptr", ["B.l", "i.v"] + ["l.c"] * (n - 1), "i"))))
     # the method's class against the object's class, const and non-const methods, alone and under retype/bind
     for rel in (0, 1, 2, 3):
         for mc in (0, 1):
@@ -378,4 +400,4 @@ def directed_pairings():
 
 
 def tuplify(x):
-    return tuple(tuplify(y) for y in x) if isinstance(x, list) and x and isinstance(x[0], str) and x[0] in ("fun", "mem", "bind", "hide", "hr", "retype") else x
+    return tuple(tuplify(y) for y in x) if isinstance(x, list) and x and isinstance(x[0], str) and x[0] in ("fun", "mem", "bind", "hide", "hr", "retype", "hideat", "bindat") else x
